@@ -57,12 +57,38 @@ theorem insertedMem_removedMem (mem : Mem) (n : Name) (pp : Path) (pm m' : MNode
     · simp only [h2, if_false]
       cases h3 : (n :: pp).isSuffixOf p <;> simp
 
+/-- what the forest says after a successful removal: a whiteout node, or a loaded parent that does
+    not list the name -/
+def Gone (pp : Path) (n : Name) (s : St) : Prop :=
+  (∃ m, s.mem (n :: pp) = some m ∧ m.whiteout = true) ∨
+  (∃ pm, s.mem pp = some pm ∧ pm.loaded = true ∧ n ∉ pm.kids)
+
+/-- ... and then nothing answers LOOKUP there, on disk -/
+theorem gone_specStat {s : St} (hc : Consistent s) {pp : Path} {n : Name} (h : Gone pp n s) :
+    specStat s.disk (n :: pp) = none := by
+  rcases h with ⟨m, hm, hw⟩ | ⟨pm, hpm, hlo, hn⟩
+  · rw [specStat_of_mem hc hm]
+    have := hc.wh _ m hm
+    rw [hw] at this
+    cases hr : m.reals with
+    | nil => rfl
+    | cons r rest => rw [hr] at this; simp [headStat, headWhiteout] at this ⊢; simp [this]
+  · have hk := hc.kidsLoaded pp pm hpm hlo n
+    rw [specStat_eq]
+    cases he : expReals s.disk (n :: pp) with
+    | nil => rfl
+    | cons r rest =>
+      by_cases hw : r.whiteout = true
+      · simp [headStat, hw]
+      · simp only [Bool.not_eq_true] at hw
+        exact absurd (hk.2 (by rw [he]; simp [needsNode, hw])) hn
+
 /-- the tail of `do_rm` for a non-directory: what is left in the upper layer and in the forest -/
 theorem rmFinish_cons {s : St} (hc : Consistent s) (pp : Path) (n : Name) {pm node : MNode}
     (hpm : s.mem pp = some pm) (hpu : pm.inUpper = true) (hlo : pm.loaded = true)
     (hnode : s.mem (n :: pp) = some node) (hnw : node.whiteout = false) :
     Outcome (rmFinish pp n false node pm (!(node.upperLayerOnly && !lowerEntryExists s.disk pm n)) s)
-      (fun _ s' => Consistent s') (fun s' => Consistent s') := by
+      (fun _ s' => Consistent s' ∧ Gone pp n s') (fun s' => Consistent s') := by
   have hl := hc.toLocal
   obtain ⟨pr, hpr, hprl, hprp, hpru, _, prest, hpreals⟩ := upper_head hc hpm hpu
   obtain ⟨L, hup⟩ : ∃ L, s.disk.upper = some L := by
@@ -96,7 +122,7 @@ theorem rmFinish_cons {s : St} (hc : Consistent s) (pp : Path) (n : Name) {pm no
       (∀ m, (L (m :: n :: pp)).isAbsent = true) →
       Outcome ((do
           let ri ← pr.createWhiteout n
-          insertChild pp n (newNode ri)) s3) (fun _ s' => Consistent s') (fun s' => Consistent s') := by
+          insertChild pp n (newNode ri)) s3) (fun _ s' => Consistent s' ∧ Gone pp n s') (fun s' => Consistent s') := by
     intro s3 L1 hd3 hm3 hL1a hL1p hL1set hleaf
     have hcw : hCreateWhiteout L1 pr.path n = .ok (L1.set (n :: pp) .whiteout) := by
       rw [hprp]
@@ -122,9 +148,11 @@ theorem rmFinish_cons {s : St} (hc : Consistent s) (pp : Path) (n : Name) {pm no
       (by rw [hloc, hreal]; exact Or.inl rfl)
       (by simp [newNode, headWhiteout])
       (by rw [hloc]; simp) []
-    refine this.congr ?_ ?_
+    refine ⟨this.congr ?_ ?_, Or.inl ⟨newNode { childReal pr n with whiteout := true }, ?_, rfl⟩⟩
     · rw [hd5, hd4, hd3, hprl, hL1set]; simp [Disk.setUpper, hup, Disk.setLayer]
     · rw [hm5, hm4, hm3, insertedMem_removedMem]
+    · rw [hm5, hm4, hm3, insertedMem_removedMem, insertedMem_apply]
+      simp [cons_ne_self]
   unfold rmFinish
   rw [hpr]
   simp only []
@@ -168,9 +196,11 @@ theorem rmFinish_cons {s : St} (hc : Consistent s) (pp : Path) (n : Name) {pm no
             | true => simp [hle] at hneed
         have hH := removed_needsNode hc hu n pp hpm hpreals hpru hcond
         have := consistent_removeChild hc hup n pp .absent hpm (by rw [← hL1eq]; exact keepRoot_hUnlink pp n L L1 hunl) hH []
-        refine this.congr ?_ ?_
+        refine ⟨this.congr ?_ ?_, Or.inr ⟨{ pm with kids := pm.kids.filter (· != n) }, ?_, hlo, ?_⟩⟩
         · rw [hd4, hd3, hprl, hL1eq]; simp [Disk.setUpper, hup]
         · rw [hm4, hm3]
+        · rw [hm4, hm3, removedMem_apply]; simp
+        · simp [List.mem_filter]
   · -- only lower layers have the node: a whiteout is needed
     simp only [Bool.not_eq_true] at hnu
     obtain ⟨_, _, _, habs, _⟩ := lowerDir_facts hc n pp hpm hnode hpu hnu hnreals
@@ -223,7 +253,7 @@ theorem doRm_unlink_tail {s : St} (hc : Consistent s) (pp : Path) (n : Name) {pm
         let pm ← getNode pp
         let s ← getSt
         rmFinish pp n false node pm (!(node.upperLayerOnly && !lowerEntryExists s.disk pm n))) s)
-      (fun _ s' => Consistent s') (fun s' => Consistent s') := by
+      (fun _ s' => Consistent s' ∧ Gone pp n s') (fun s' => Consistent s') := by
   have hl := hc.toLocal
   have hls := lookupSelf_loaded hc hpm hw hlo hr
   by_cases hn : n ∈ pm.kids
@@ -259,7 +289,7 @@ theorem doRm_unlink_tail {s : St} (hc : Consistent s) (pp : Path) (n : Name) {pm
     exact hc
 
 theorem doRm_unlink_cons (pp : Path) (n : Name) :
-    Triple (fun s => Consistent s ∧ DirAt pp s) (doRm pp n false) (fun _ => Consistent) Consistent := by
+    Triple (fun s => Consistent s ∧ DirAt pp s) (doRm pp n false) (fun _ s => Consistent s ∧ Gone pp n s) Consistent := by
   unfold doRm
   refine Triple.bind (Q := fun _ s => Consistent s ∧ DirAt pp s) ?_ fun up => ?_
   · intro s hs
@@ -281,14 +311,67 @@ theorem doLookup_keepsDir (pp : Path) (n : Name) :
   obtain ⟨pm', hpm', _⟩ := hc'.reach n pp c hcm
   exact ⟨hc', st, by rw [hd']; exact hsp, hd, pm', hpm'⟩
 
-theorem runOp_unlink_cons (p : List Name) :
-    Triple Consistent (runOp (.unlink p)) (fun _ => Consistent) Consistent := by
+theorem splitLast_reverse : ∀ (p pp' : List Name) (n : Name), splitLast p = some (pp', n) →
+    p.reverse = n :: pp'.reverse
+  | [], _, _, h => by simp [splitLast] at h
+  | [a], pp', n, h => by
+    simp [splitLast] at h
+    obtain ⟨rfl, rfl⟩ := h; rfl
+  | a :: b :: rest, pp', n, h => by
+    simp only [splitLast] at h
+    cases hs : splitLast (b :: rest) with
+    | none => simp [hs] at h
+    | some r =>
+      obtain ⟨q', n'⟩ := r
+      simp [hs] at h
+      obtain ⟨rfl, rfl⟩ := h
+      have ih := splitLast_reverse (b :: rest) q' n' hs
+      simp only [List.reverse_cons] at ih ⊢
+      rw [ih]; simp
+
+/-- `resolveParent` with the path it resolved -/
+theorem resolveParent_spec' (p : List Name) :
+    Triple Consistent (resolveParent p) (fun r s => (r.2 :: r.1 = p.reverse) ∧ (Consistent s ∧ DirAt r.1 s)) Consistent := by
+  intro s hs
+  have h0 := resolveParent_spec p s hs
+  refine ⟨fun a s' hf => ⟨?_, h0.1 a s' hf⟩, h0.2⟩
+  unfold resolveParent at hf
+  cases hsl : splitLast p with
+  | none => simp only [hsl] at hf; cases hf
+  | some r0 =>
+    obtain ⟨pp', n⟩ := r0
+    simp only [hsl] at hf
+    have h := resolve_spec s.disk pp' s ⟨hs, rfl⟩
+    cases hr : resolve pp' s with
+    | err e s1 => rw [bind_err hr] at hf; cases hf
+    | ok r s1 =>
+      obtain ⟨ppath, pst⟩ := r
+      have hpath := (h.1 _ s1 hr).2.1
+      rw [bind_ok hr] at hf
+      by_cases hd : pst.isDir = true
+      · simp only [hd, Bool.not_true, Bool.false_eq_true, if_false] at hf
+        cases hf
+        simp only at hpath ⊢
+        rw [hpath, splitLast_reverse p pp' n hsl]
+      · simp only [hd, Bool.not_false, if_true] at hf
+        cases hf
+
+theorem runOp_unlink_gone (p : List Name) :
+    Triple Consistent (runOp (.unlink p))
+      (fun _ s => Consistent s ∧ specStat s.disk p.reverse = none) Consistent := by
   unfold runOp
-  refine Triple.bind (resolveParent_spec p) fun r => ?_
+  refine Triple.bind (resolveParent_spec' p) fun r => Triple.pure_pre fun hpath => ?_
   obtain ⟨pp, n⟩ := r
   refine Triple.bind (doLookup_keepsDir pp n) fun st => ?_
   refine Triple.ite' (fun _ => Triple.fail' fun _ h => h.1) fun _ => ?_
   refine Triple.bind (doRm_unlink_cons pp n) fun _ => ?_
-  exact Triple.pure' fun _ h => h
+  refine Triple.pure' fun s h => ⟨h.1, ?_⟩
+  have := gone_specStat h.1 h.2
+  simp only at hpath
+  rw [← hpath]; exact this
+
+theorem runOp_unlink_cons (p : List Name) :
+    Triple Consistent (runOp (.unlink p)) (fun _ => Consistent) Consistent :=
+  (runOp_unlink_gone p).post fun _ _ h => h.1
 
 end Fbr.Ovl
